@@ -57,7 +57,7 @@ def float_literal(draw, json_only=False):
 WORDS = ["bare", "John", "x1", "a-b", "v2.5", "true", "none_", "ABC", "k_2", "0", "semi;colon", "a,b", "p:q",
          "None", "True", "FALSE", "NONE"]        # a string is the text written: only lower-case none/true/false are keywords
 PHRASES = ["New York", "two  blanks", "with # hash", "it's", 'say "hi"', "trailing ", " leading", "a=b", "x y z", "[1, 2]",
-           "form\x0cfeed", "line\u2028sep", "v\x0bt"]
+           "form\x0cfeed", "line\u2028sep", "v\x0bt", "\\\\server\\share x", "row \\\\ end", "re \\\\d+ x"]
 
 
 @st.composite
@@ -131,7 +131,7 @@ def table_value(draw):
                 else:
                     # bare cells are taken literally: a backslash, an apostrophe or a dollar sign is just a character
                     w = draw(st.sampled_from(["aa", "bb", "John", "x1", "k_2", "1.10", "1e3", "true", "null",
-                                              "C:\\data\\run1.log", "O'Brien", "$\\alpha$", "it's", "a\\b"]))
+                                              "C:\\data\\run1.log", "O'Brien", "$\\alpha$", "it's", "a\\b", "\\\\srv\\x"]))
                     cells.append({"text": w, "py": w})
             elif t == "int":
                 cells.append(draw(int_literal("int")))
@@ -155,7 +155,8 @@ def typed_value(draw, allow_table=True):
                                                "#!/bin/sh", "  # a body line that starts with a hash", "#alpha 1",
                                                # characters str.splitlines() would split at: only the newline ends a line
                                                "Chapter 1\x0cChapter 2", "a\x0bb", "x\x1cy\x1dz", "u\x85v", "p\u2028q",
-                                               "cr\rinside", "trailing blanks   ", "   "]),
+                                               "cr\rinside", "trailing blanks   ", "   ", "two \\\\ backslashes",
+                                               "\\\\server\\share"]),
                               min_size=1, max_size=4))
         if lines[0] == "" or lines[-1] == "":
             lines = ["first"] + lines + ["end"]
